@@ -67,6 +67,29 @@ func prepare(repo, verif string) (*load.Program, error) {
 				}
 			}
 		}
+		if cl, ns := load.InlineCondLocals(prog.Pkgs, read); len(cl) > 0 {
+			saved := map[string][]byte{}
+			for k, v := range cl {
+				if old, ok := overlay[k]; ok {
+					saved[k] = old
+				}
+				overlay[k] = v
+			}
+			if next, lerr := load.LoadOverlay(repo, overlay); lerr == nil {
+				next.RawID = kit.RawFuncID
+				prog = next
+				notes = append(notes, ns...)
+			} else {
+				notes = append(notes, fmt.Sprintf("reading one-use condition variables as conditions abandoned (%v)", lerr))
+				for k := range cl {
+					if old, ok := saved[k]; ok {
+						overlay[k] = old
+					} else {
+						delete(overlay, k)
+					}
+				}
+			}
+		}
 		if ur, ns := load.UnrollConstRanges(prog.Pkgs, read); len(ur) > 0 {
 			for k, v := range ur {
 				overlay[k] = v
